@@ -108,6 +108,7 @@ ActFor(e) ==
          /\ ActDkg1(e.out_sec, e.out_pkg, e.id, e.n, e.t, a.a0, a.cs, a.k, e.refresh)
     [] e.op = "tamper_r1"    -> ActTamperR1(e.out, e.src, e.what, e.k, e.d)
     [] e.op = "tamper_r2"    -> ActTamperR2(e.out, e.src, e.d)
+    [] e.op = "zero_r2"      -> ActZeroR2(e.out, e.src)
     [] e.op = "dkg2"         -> ActDkg2(e.out_sec, e.out_r2, e.sec, PairsToFn(e.r1), e.refresh)
     [] e.op = "dkg3"         ->
          ActDkg3(e.out_kp, e.out_pkp, e.sec, PairsToFn(e.r1), PairsToFn(e.r2), e.refresh,
@@ -139,7 +140,7 @@ ActFor(e) ==
 
 Known(e) == e.op \in {"split", "kp_from_ss", "tamper_ss", "lie_min", "reconstruct", "commit", "preprocess",
    "tamper_comm", "package", "sign", "tamper_share", "verify_share", "aggregate", "verify", "dkg1", "tamper_r1",
-   "tamper_r2", "dkg2", "dkg3", "refresh_shares", "refresh_share", "repair1", "repair2", "repair3", "rr_new",
+   "tamper_r2", "zero_r2", "dkg2", "dkg3", "refresh_shares", "refresh_share", "repair1", "repair2", "repair3", "rr_new",
    "rr_regen", "rr_fixed", "tamper_seed", "rr_sign", "rr_sign_fixed", "mk_sk", "single_sign", "tamper_sig", "batch",
    "reload", "neg_nonces", "graft_proof"}
 
